@@ -50,6 +50,7 @@ def main():
 def run_unit(ck, unit):
     name, yaml = unit
     quick = ck.tier == 'quick'
+    ck.handles_probes = True
     br = ck.bridge()
     base = br.call(cmd='load', yaml=yaml, opts=None)
     if 'panic' in base:
